@@ -127,3 +127,12 @@ def implies(a, b):
 
 def iff(a, b):
     return bool(a) == bool(b)
+
+
+def forall(lo, hi, pred):
+    """for all integers j with lo <= j < hi: pred(j).  Executable natively; a quantifier in VCs."""
+    return all(pred(j) for j in range(lo, hi))
+
+
+def exists(lo, hi, pred):
+    return any(pred(j) for j in range(lo, hi))
